@@ -201,6 +201,11 @@ impl AllocationQueue {
     }
 
     pub fn resume(&mut self) {
+        if !self.state.is_active() {
+            // A queue that was paused because of too many failures would otherwise be paused
+            // again by the next scheduling pass, without a single new attempt
+            self.rate_limiter.on_queue_resumed();
+        }
         self.state = AllocationQueueState::Active;
     }
 
@@ -517,6 +522,13 @@ impl RateLimiter {
     pub fn on_allocation_fail(&mut self) {
         self.allocation_fails += 1;
         self.increase_delay();
+    }
+
+    /// The queue was resumed by the user, the failure streaks start from zero again.
+    /// The current delay is kept.
+    pub fn on_queue_resumed(&mut self) {
+        self.allocation_fails = 0;
+        self.submission_fails = 0;
     }
 
     /// Submission will be attempted, reset the limiter timer.
